@@ -18,5 +18,19 @@ def check_c09(pid, tier, replay):
 
 
 def check_c10(pid, tier, replay):
-    endpoint.run(pid, tier, replay, ("C10_",), [("endpoint/Reasm", None)], gens(tier) + [("endpoint/FragGen", "endpoint/FragGen%s.cfg" % ("_deep" if tier == "thorough" else ""))] + endpoint.mix_gens(pid, tier), RULE +
-                 "; plus every split offset of an encoded five-section message into 2 frames and a grid of 3-frame splits (FragGen.tla)" + endpoint.MIX_RULE)
+    import vlib
+    from props import txn
+    verdict = vlib.Verdict(pid, tier)
+    ev = endpoint.run(pid, tier, replay, ("C10_",), [("endpoint/Reasm", None)], gens(tier) + [("endpoint/FragGen", "endpoint/FragGen%s.cfg" % ("_deep" if tier == "thorough" else ""))] + endpoint.mix_gens(pid, tier), RULE +
+                      "; plus every split offset of an encoded five-section message into 2 frames and a grid of 3-frame splits (FragGen.tla)" + endpoint.MIX_RULE, verdict=verdict, finish=False)
+    if not replay:
+        # deliveries that travel through a transaction on a listener are reassembled by the transactional session first: the posts of the TxnGen scripts
+        # (one frame, two frames with bare or with repeated continuation fields, aborted, interleaved with a discharge) must come out whole, in order,
+        # and a plain delivery that follows a post is a delivery of its own
+        ev2 = endpoint.run(pid, tier, None, ("C18_CommitDelivers", "C18_Order", "C18_SpuriousRefusal", "C18_Isolation"), [], [("txn/TxnGen", "txn/TxnGen_%s.cfg" % ("da" if tier == "thorough" else "a"))], "",
+                           trace_spec="txn/TxnTrace", keep=lambda r: r["ev"] in txn.KEEP, verdict=verdict, finish=False)
+        for k in ("states", "transitions", "traces_validated_against_impl", "evaluations", "distinct_nontrivial"):
+            ev["coverage"][k] += ev2["coverage"][k]
+        ev["coverage"]["rule"] += "; plus the resource-side transaction scripts of TxnGen.tla (posts of one and two frames through a transactional listener session, judged by TxnTrace.tla for whole and ordered delivery)"
+        ev["coverage"]["clauses_owned"] += ["C18_CommitDelivers", "C18_Order", "C18_SpuriousRefusal", "C18_Isolation"]
+    verdict.finish(ev)
